@@ -15,6 +15,12 @@ def main(argv):
   try:
     r = core.Run(prop, tier)
     r.audit = core.audit(prop)
+    if tier == "thorough" and r.audit["build_ok"]:
+      lc = core.leanchecker(prop)
+      r.extra["leanchecker"] = lc
+      if not lc["ok"]:
+        r.audit["ok"] = False
+        r.audit["build_log"] = "leanchecker rejected: " + lc["log"]
     mod = importlib.import_module("qkv.props." + prop.lower())
     mod.run(r, tier)
     return r.finish()
